@@ -206,6 +206,20 @@ CHECKS = {
         "control, without fault EngineStarted and EngineStopped (no hang); external clusters never touched.",
         "Trusted: mc/actorsim.py (untimed mode), the canonical state function (argument in ASSUMPTIONS), stubs for team loading and node launch.",
     ),
+    "C03": (
+        "exploration",
+        "bounded-exhaustive enumeration of corpora x clients x worker splits x bulk/batch sizes x percentages x conflict modes through the "
+        "real bulk parameter source and readers on real files (incl. offset tables), against the files read line by line; plus exhaustive "
+        "arithmetic layers for bounds() tiling and the percentage cut up to 10^12 documents",
+        "DESIGN.md §4 C03",
+        "12 corpus layouts (1-2 corpora x 1-2 files, with/without action-and-meta-data lines, 1- to 4-byte UTF-8) x 1..5 clients x the worker "
+        "groups the real calculate_worker_assignments produces for 4 layouts x bulk {1,2,3,5,1000} x batch {1x,2x,3x} x percentage "
+        "{100,75,50,34,1}, conflict modes {sequential, random} x {index, update}; files of 50001..120007 lines read through offset tables. "
+        "Oracle: union of all bulks = every document exactly once, contiguous slices in file order per client group, bulk-size field = docs "
+        "in body <= configured, action/meta line paired with its document, update bodies wrap the doc, percentage run = prefix of exactly "
+        "ceil(p%) bulks, conflicting ids previously emitted by the same reader.",
+        "Trusted: the reference reader (plain file read). 10^12-document files only at the arithmetic layers.",
+    ),
 }
 
 NOT_YET = {}
